@@ -227,6 +227,27 @@ theorem C13_nonidempotent_not_speculative (spAttempts : Nat) : maxExecutions fal
 theorem C13_batch_idempotent_iff (entries : List Bool) : batchIdempotent entries = true ↔ ∀ e ∈ entries, e = true := by
   simp [batchIdempotent]
 
+/-- **a batch with ANY non-idempotent entry — first, middle or last — runs as one execution** whatever the
+    speculative policy says -/
+theorem C13_batch_nonidempotent_entry_not_speculative (entries : List Bool) (spAttempts : Nat)
+    (h : ∃ e ∈ entries, e = false) : maxExecutions (batchIdempotent entries) spAttempts = 1 := by
+  have : batchIdempotent entries = false := by
+    cases hb : batchIdempotent entries with
+    | false => rfl
+    | true =>
+      obtain ⟨e, he, hf⟩ := h
+      have := (C13_batch_idempotent_iff entries).mp hb e he
+      rw [hf] at this; cases this
+  rw [this]; exact C13_nonidempotent_not_speculative spAttempts
+
+/-- … and a batch all of whose entries are idempotent (in particular one without entries) may be speculated as the
+    policy says -/
+theorem C13_batch_all_idempotent_speculated (entries : List Bool) (spAttempts : Nat) (h : ∀ e ∈ entries, e = true) :
+    maxExecutions (batchIdempotent entries) spAttempts = 1 + spAttempts := by
+  rw [(C13_batch_idempotent_iff entries).mpr h]
+  unfold maxExecutions
+  cases spAttempts <;> simp
+
 theorem C13_executions_bound (idem : Bool) (spAttempts : Nat) : maxExecutions idem spAttempts ≤ 1 + spAttempts := by
   unfold maxExecutions; split <;> omega
 
@@ -240,6 +261,29 @@ theorem C13_shared_counter_budget (p : Policy) (N : Nat) (hp : ∀ m, p.attempt 
     m.sent ≤ (N - c0) + ExecutorConc.started m.exs ∧ ExecutorConc.started m.exs ≤ e ∧
     m.sent ≤ ExecutorConc.budget (N - c0) e :=
   ExecutorConc.run_budget p N hp c0 hosts e sched
+
+/-- **every attempt of concurrent executions is counted and numbered once**: for EVERY retry policy (or none) and
+    every schedule — completions of several executions in any order, also back to back —, the attempts are given the
+    numbers c0, c0+1, c0+2, … (what observers see as `Attempt`, what `Attempts()` hands to the retry policies) without
+    gap or repetition, and the counter stands at c0 + the number of attempts made -/
+theorem C13_shared_attempts_numbered (pol : Option Policy) (c0 hosts e : Nat) (sched : List ExecutorConc.Act) :
+    let m := ExecutorConc.run pol (ExecutorConc.init c0 hosts e) sched
+    m.log.reverse = List.range' c0 m.log.length ∧ m.cnt = c0 + m.log.length :=
+  let h := ExecutorConc.run_accounted pol c0 hosts e sched
+  ⟨h.1, h.2.1⟩
+
+/-- **at quiescence `Attempts()` accounts for every request**: for every policy and schedule, when no attempt is in
+    flight the counter = its start value + the requests sent + the attempts that found the executions' context
+    already cancelled (nothing written; at most one per execution, its last): `c0 + sent ≤ Attempts() ≤ c0 + sent + E` -/
+theorem C13_shared_quiescent_accounted (pol : Option Policy) (c0 hosts e : Nat) (sched : List ExecutorConc.Act) :
+    let m := ExecutorConc.run pol (ExecutorConc.init c0 hosts e) sched
+    ExecutorConc.quiet m.exs = true →
+      m.cnt = c0 + m.sent + m.unsent ∧ m.unsent ≤ e ∧ c0 + m.sent ≤ m.cnt ∧ m.cnt ≤ c0 + m.sent + e := by
+  intro m hq
+  have h := ExecutorConc.run_accounted pol c0 hosts e sched
+  have h1 : m.cnt = c0 + m.sent + m.unsent := h.2.2.2.2 hq
+  have h2 : m.unsent ≤ e := h.2.2.2.1
+  exact ⟨h1, h2, by omega, by omega⟩
 
 /-- the shared host iterator hands every usable host out once: a policy that never answers `Retry` (Simple,
     ExponentialBackoff) sends at most one request per usable host, over all executions and schedules -/
@@ -291,5 +335,13 @@ example : (doQuery ⟨.query, false⟩ (some (downgradingPolicyL [2, 1])) (fun _
     the bound 1 + 2 -/
 example : (ExecutorConc.run (some (simplePolicy 1)) (ExecutorConc.init 0 3 2)
     [.launch 0, .launch 1, .complete 0 (.err 9), .decide 0, .complete 1 (.err 9), .decide 1]).sent = 3 := by decide
+
+/-- non-vacuity of the accounting: three executions complete back to back, one more attempt finds the context
+    cancelled — numbers 0,1,2,3, counter 4 = 3 requests + 1 unsent -/
+example :
+    let m := ExecutorConc.run (some (simplePolicy 5)) (ExecutorConc.init 0 6 3)
+      [.launch 0, .launch 1, .launch 2, .complete 2 (.err 9), .complete 0 (.err 9), .complete 1 (.err 9), .decide 1, .abort 0,
+       .decide 2]
+    (m.log, m.cnt, m.sent, m.unsent) = ([3, 2, 1, 0], 4, 5, 1) := by decide
 
 end C13
